@@ -36,14 +36,14 @@ MaxOf(a, b) == IF a > b THEN a ELSE b
 ExpectedRows(op, na, nb) ==
   CASE op \in {"unary"} -> 0                                   \* usual header, no data rows
     [] op \in {"cat", "stack", "mergesort", "outerjoin"} -> na + nb
-    [] op = "annex" -> MaxOf(na, nb)
+    [] op \in {"annex", "addcolumn"} -> MaxOf(na, nb)     \* rows side by side / a column of nb values: the longer one decides
     [] op \in {"join", "crossjoin", "intersection", "hashjoin", "hashintersection"} -> 0
     [] op \in {"leftjoin", "lookupjoin", "antijoin", "hashleftjoin", "hashlookupjoin", "hashantijoin",
                "complement", "recordcomplement", "hashcomplement"} -> na
     [] op \in {"rightjoin", "hashrightjoin", "diff"} -> nb       \* diff[0] = complement(b, a)
     [] op = "aggregate(key=None)" -> 1                           \* the documented single row
     [] op = "pushheader" -> 1                                    \* the old header becomes the only data row
-BinaryOps == {"cat", "stack", "mergesort", "outerjoin", "annex", "join", "crossjoin", "intersection", "hashjoin",
+BinaryOps == {"cat", "stack", "mergesort", "outerjoin", "annex", "addcolumn", "join", "crossjoin", "intersection", "hashjoin",
               "hashintersection", "leftjoin", "lookupjoin", "antijoin", "hashleftjoin", "hashlookupjoin", "hashantijoin",
               "complement", "recordcomplement", "hashcomplement", "rightjoin", "hashrightjoin", "diff"}
 ASSUME ndJsonSerialize(IOEnv.OUT, SetToSeq({[op |-> o, na |-> p[1], nb |-> p[2], rows |-> ExpectedRows(o, p[1], p[2])] :
